@@ -296,6 +296,17 @@ func checkC07(c *Case, st *Stats) string {
 		return ""
 	}
 	want := res.Values()
+	if work := (c.Doc.Size() + 4*len(want)) * reps * len(layouts); work > 150000 {
+		// a big document or result (the thousand-element array, a deep thread under '..'): the cost of
+		// a case is copies x repetitions x (values + logged calls); keep two copies and two repetitions
+		if len(layouts) > 2 {
+			layouts = layouts[:2]
+		}
+		if reps > 2 {
+			reps = 2
+		}
+		st.Class("big-case:two-copies-two-repetitions")
+	}
 	for li, layout := range layouts {
 		seed := uint64(layout)*2654435761 + 1
 		var memo map[string]interface{}
